@@ -9,6 +9,8 @@ import (
 	"reflect"
 	"sort"
 	"strings"
+	"sync"
+	"time"
 
 	"github.com/cosmos/cosmos-proto/internal/verifh/vreg"
 	"github.com/cosmos/cosmos-proto/internal/verifh/vschema"
@@ -19,13 +21,13 @@ import (
 
 // Target: one generated message type under test, with its schema closure and struct bridge.
 type Target struct {
-	Pkg    string
-	Full   string
-	S      *vschema.Schema
-	B      *vval.Bridge
-	Info   *vreg.MsgInfo
-	Desc   protoreflect.MessageDescriptor
-	Enums  map[string][]int32
+	Pkg   string
+	Full  string
+	S     *vschema.Schema
+	B     *vval.Bridge
+	Info  *vreg.MsgInfo
+	Desc  protoreflect.MessageDescriptor
+	Enums map[string][]int32
 }
 
 func typeOfFull(full string) reflect.Type {
@@ -63,31 +65,38 @@ func loadTargets() []*Target {
 // Violation found by a direct oracle on the implementation.
 type Violation struct {
 	Property string `json:"property"`
-	Key      string `json:"key"`  // stable classification key (matched against known-findings)
+	Key      string `json:"key"` // stable classification key (matched against known-findings)
 	Desc     string `json:"desc"`
 	Replay   string `json:"replay"`
 }
 
 type Result struct {
-	Engine      string                 `json:"engine"`
-	Evaluations int                    `json:"evaluations"`
-	Distinct    int                    `json:"distinct_nontrivial"`
-	Rule        string                 `json:"rule"`
-	Samples     []string               `json:"samples"`
-	Violations  []Violation            `json:"violations"`
-	Stats       map[string]int         `json:"stats"`
-	Notes       []string               `json:"notes,omitempty"`
-	Programs    int                    `json:"programs"`
+	Engine      string         `json:"engine"`
+	Evaluations int            `json:"evaluations"`
+	Distinct    int            `json:"distinct_nontrivial"`
+	Rule        string         `json:"rule"`
+	Samples     []string       `json:"samples"`
+	Violations  []Violation    `json:"violations"`
+	Stats       map[string]int `json:"stats"`
+	Notes       []string       `json:"notes,omitempty"`
+	Programs    int            `json:"programs"`
 }
 
 type Out struct {
-	dir    string
-	in     *os.File
-	expect *os.File
-	meta   *os.File
-	res    Result
-	seen   map[string]bool
-	lines  int
+	dir                         string
+	in                          *os.File
+	expect                      *os.File
+	meta                        *os.File
+	res                         Result
+	seen                        map[string]bool
+	lines                       int
+	wmu                         sync.Mutex
+	wseq                        int
+	wactive                     bool
+	wrunning                    bool
+	wstart                      time.Time
+	wlimit                      time.Duration
+	wprop, wkey, wdesc, wreplay string
 }
 
 func newOut(dir, engine string) *Out {
@@ -134,6 +143,43 @@ func (o *Out) Violate(prop, key, desc, replay string) {
 	if len(o.res.Violations) < 200 {
 		o.res.Violations = append(o.res.Violations, Violation{prop, key, desc, replay})
 	}
+}
+
+// Watch arms a watchdog for one call into the code under test: if Unwatch is not called within the limit
+// the call is reported as a violation (non-termination / unbounded running time) with its replay, the
+// results collected so far are written and the process exits (a spinning goroutine cannot be stopped).
+func (o *Out) Watch(prop, key, desc, replay string, limit time.Duration) {
+	o.wmu.Lock()
+	o.wseq++
+	o.wactive, o.wstart, o.wlimit = true, time.Now(), limit
+	o.wprop, o.wkey, o.wdesc, o.wreplay = prop, key, desc, replay
+	start := !o.wrunning
+	o.wrunning = true
+	o.wmu.Unlock()
+	if start {
+		go func() {
+			for {
+				time.Sleep(200 * time.Millisecond)
+				o.wmu.Lock()
+				expired := o.wactive && time.Since(o.wstart) > o.wlimit
+				prop, key, desc, replay, limit := o.wprop, o.wkey, o.wdesc, o.wreplay, o.wlimit
+				o.wmu.Unlock()
+				if expired {
+					o.Violate(prop, key, fmt.Sprintf("%s did not return within %v", desc, limit), replay)
+					o.res.Stats["watchdog_expired"]++
+					o.Close()
+					os.Exit(0)
+				}
+			}
+		}()
+	}
+}
+
+// Unwatch disarms the current watchdog.
+func (o *Out) Unwatch() {
+	o.wmu.Lock()
+	o.wactive = false
+	o.wmu.Unlock()
 }
 
 func (o *Out) Close() {
